@@ -102,3 +102,125 @@ _old_install = install
 def install(reg):
     _old_install(reg)
     reg.add_model(lambda v: v.ty == TNetObj, NetObjModel())
+
+
+# ---------------------------------------------------------------------- variable ids, percolation, graph constructor
+TVarId = TObj("VarId")
+varname = z3.Function("varname", TGraph.sort(), TVarId.sort(), Name)      # get_network_variable_name
+varid = z3.Function("varid", TGraph.sort(), Name, TVarId.sort())          # find_network_variable
+graph_of = z3.Function("graph_of", TNetObj.sort(), TGraph.sort())         # AsynchronousGraph(bn)
+TRUSTED.update({
+    "aeon.Percolation.percolate_subspace": "returns {id: value} for exactly the variables fixed by Perc(N, space) (least fixed point of value "
+                                           "propagation keeping the given values); raises IndexError on unknown names",
+    "aeon.AsynchronousGraph.get_network_variable_name / find_network_variable": "mutually inverse bijection between variable ids and names",
+    "aeon.AsynchronousGraph(bn)": "symbolic graph with the semantics of bn: net_of(AsynchronousGraph(bn)) = bn_net_of(bn)",
+})
+
+
+def _percolate_subspace(eng, st, node):
+    g = eng.ev(node.args[0], st)
+    s = eng.coerce(eng.ev(node.args[1], st), TSpace, st)
+    N = net_of(g.t)
+    k = z3.Const(fresh_name("k"), Name)
+    eng.oblige(st, f"pre.percolate_subspace.names_known@{node.lineno}", z3.ForAll([k], z3.Implies(s.t[k] >= 0, T.isvar(N, k))),
+               node.lineno, kind="pre")
+    ty = TDict(TVarId, TBool)
+    res = ty.fresh("percolated")
+    vid = z3.Const(fresh_name("id"), TVarId.sort())
+    P = T.Perc(N, s.t)
+    st.assume(T.wf_space(P))
+    st.assume(z3.ForAll([vid], ty.dom(res.t)[vid] == z3.And(P[varname(g.t, vid)] >= 0, varid(g.t, varname(g.t, vid)) == vid)))
+    st.assume(z3.ForAll([vid], z3.Implies(ty.dom(res.t)[vid], ty.vals(res.t)[vid] == (P[varname(g.t, vid)] == 1))))
+    st.assume(z3.ForAll([k], z3.Implies(P[k] >= 0, z3.And(T.isvar(N, k), varname(g.t, varid(g.t, k)) == k))))
+    return res
+
+
+class GraphModel2(GraphModel):
+    def method(self, eng, st, v, meth, args, kw, node, recv_expr=None):
+        if meth == "get_network_variable_name":
+            return Val(TName, varname(v.t, args[0].t))
+        return super().method(eng, st, v, meth, args, kw, node, recv_expr)
+
+
+_install1 = install
+
+
+def install(reg):
+    _install1(reg)
+    reg.models = [(p, (GraphModel2() if isinstance(m, GraphModel) else m)) for p, m in reg.models]
+    reg.module_calls[("Percolation", "percolate_subspace")] = _percolate_subspace
+
+    def AsyncGraph(eng, st, node):
+        bn = eng.ev(node.args[0], st)
+        if bn.ty != TNetObj:
+            raise OutOfSubset("AsynchronousGraph(<not a BooleanNetwork>)")
+        g = graph_of(bn.t)
+        st.assume(net_of(g) == bn_net_of(bn.t))
+        return Val(TGraph, g)
+    reg.global_calls["AsynchronousGraph"] = AsyncGraph
+
+    def isinst(eng, st, v, tnode):
+        import ast
+        if isinstance(tnode, ast.Name):
+            if tnode.id == "BooleanNetwork":
+                return vbool(v.ty == TNetObj)
+            if tnode.id == "AsynchronousGraph":
+                return vbool(v.ty == TGraph)
+        return None
+    reg.add_hook("isinstance", isinst)
+
+    def to_int(eng, st, v, node):
+        return None
+    reg.add_hook("to_int", to_int)
+
+
+TRUSTED["aeon.BooleanNetwork.find_variable"] = "None for unknown names, otherwise the variable id; ids are distinct non-negative integers (int(id))"
+
+
+class NetObjModel2(NetObjModel):
+    def method(self, eng, st, v, meth, args, kw, node, recv_expr=None):
+        N = bn_net_of(v.t)
+        if meth == "find_variable":
+            k = args[0]
+            if k.ty != TName:
+                raise OutOfSubset("find_variable(<non-name>)")
+            ty = TOpt(TInt)
+            r = ty.fresh("varid")
+            st.assume(ty.is_none(r.t) == z3.Not(T.isvar(N, k.t)))
+            st.assume(z3.Implies(z3.Not(ty.is_none(r.t)), ty.val(r.t) == T.vidx(N, k.t)))
+            st.assume(T.vidx_facts(N))
+            return r
+        return super().method(eng, st, v, meth, args, kw, node, recv_expr)
+
+
+_install2 = install
+
+
+def install(reg):
+    _install2(reg)
+    reg.models = [(p, (NetObjModel2() if isinstance(m, NetObjModel) else m)) for p, m in reg.models]
+
+    def bitop(eng, st, op, a, b, node):
+        import ast
+        if isinstance(op, ast.LShift):
+            return _Shl(a, b)
+        if isinstance(op, ast.BitOr) and isinstance(b, _Shl):
+            return vint(T.lor_shl(a.t, b.d.t, b.sh.t))
+        return None
+    reg.add_hook("int_bitop", bitop)
+
+    def binop(eng, st, op, a, b, node):
+        import ast
+        if isinstance(op, ast.BitOr) and a.ty == TInt and isinstance(b, _Shl):
+            return vint(T.lor_shl(a.t, b.d.t, b.sh.t))
+        return None
+    reg.add_hook("binop", binop)
+
+
+class _Shl(Val):
+    """d << sh, only meaningful as the right operand of `|` (modelled by lor_shl with lemma L10)"""
+
+    def __init__(self, d, sh):
+        self.d, self.sh = d, sh
+        self.ty = THelper("shl")
+        self.t = None
